@@ -126,6 +126,16 @@ def rule_r2(chk, db, g, cbi, ct, some):
     # V1 shape inside check_signature: Some(computed) only on equality with the expected signature
     calc = [(bi, t) for bi, t in cs.calls() if sigcore.is_calc_sig(callee_def(t))]
     eqs = [(bi, t) for bi, t in cs.calls() if callee_def(t).endswith("cmp::PartialEq::eq") or callee_def(t).endswith("cmp::PartialEq::ne")]
+    helper_why = ""
+    for bi, t in cs.calls():
+        d = callee_def(t)
+        hb = db.body(d)
+        if hb is not None and d.startswith("s3s::") and hb.raw.get("ret") == "bool" and len(t["args"]) == 2 and not sigcore.is_calc_sig(d):
+            okh, why = sigcore.equality_helper_sound(db, d)
+            if okh:
+                eqs.append((bi, t))
+            else:
+                helper_why = "; comparison helper %s %s" % (short(d), why)
     okv = False
     for bi, t in eqs:
         s0, s1 = flow.backward(cs, t["args"][0], at=bi), flow.backward(cs, t["args"][1], at=bi)
@@ -144,10 +154,10 @@ def rule_r2(chk, db, g, cbi, ct, some):
                         okv = True
                 elif w["kind"] == "Some":
                     o = flow.outcomes_of_call(cs, bi)
-                    eq = o.get("true") if callee_def(t).endswith("::eq") else o.get("false")
+                    eq = o.get("false") if callee_def(t).endswith("::ne") else o.get("true")
                     if eq and flow.must_pass(cs, [w["bi"]], eq):
                         okv = True
-    chk.verdict(okv and len(calc) == 1, "R2", "check_signature-compares", cs.loc(), "check_signature does not return Some only on `computed == expected`")
+    chk.verdict(okv and len(calc) == 1, "R2", "check_signature-compares", cs.loc(), "check_signature does not return Some only on `computed == expected`" + helper_why)
 
 
 def rule_r3(chk, db):
@@ -238,7 +248,7 @@ def dep_places(body, op, at, depth=0):
     places = set(sl.places)
     if depth < 2:
         for l in list(sl.locals):
-            asg = guards._const_bool_assigns(body, l)
+            asg = guards._const_bool_assigns(body, l, lenient=True)
             if not asg:
                 continue
             for bi, val in asg:
@@ -336,6 +346,23 @@ def rule_r5(chk, db):
         ok = any(short(callee_def(x)) == "extract_decoded_content_length" for _, x, _ in sl.calls) and \
             not any(short(callee_def(x)) == "extract_content_length" for _, x, _ in sl.calls)
         chk.verdict(ok, "R5", "content-length-rewritten", prep.loc(bi), "the Content-Length shown to the backend after body transformation is not x-amz-decoded-content-length")
+    # R5b: the decision to rewrite depends on whether the body was transformed
+    for bi, t in sites:
+        deps = set()
+        for s2 in prep.live_blocks():
+            t2 = prep.blocks[s2]["term"]
+            if t2["k"] != "switch":
+                continue
+            if not flow.must_pass(prep, [bi], [(s2, l) for l, _ in prep.succ_edges(s2)]):
+                continue
+            reaching = [lab for lab, tb in prep.succ_edges(s2) if bi in flow.reach(prep, [tb], stop_blocks=frozenset([s2]))]
+            if len(reaching) == len(prep.succ_edges(s2)):
+                continue
+            f, p = dep_places(prep, t2["discr"], s2)
+            deps |= f
+        chk.verdict(("SignatureContext", "transformed_body") in deps, "R5", "rewrite-iff-transformed", prep.loc(bi),
+                    "the decision to rewrite Content-Length does not depend on SignatureContext.transformed_body (whether the body was decoded): "
+                    "a decoded body can be handed to the backend with the encoded length")
     n = db.body("s3s::http::aws_chunked_stream::AwsChunkedStream::new")
     ok = False
     if n is not None:
@@ -346,6 +373,44 @@ def rule_r5(chk, db):
                 r = flow.resolve_place(n, m["remaining_length"])
                 ok = r is not None and n.local_name(r[0]) == "decoded_content_length"
     chk.verdict(ok, "R5", "remaining-length", n.loc() if n else "", "AwsChunkedStream.remaining_length is not the declared decoded length", nontrivial=False)
+
+
+END_HINTS = ("::is_end_stream", "::size_hint", "::remaining_length", "::exact", "::upper", "::lower")
+
+
+def rule_r6(chk, db):
+    """end-of-stream provenance: the adapters between the chunk reader and the backend end the stream only because their source ended,
+    never because a size hint says so (the signed zero-length chunk must be read and verified)"""
+    bodies = [b for b in db.grep("core::task::poll::Poll") if b.crate == "s3s" and short(db.root_of(b).name) in ("poll_next", "poll_frame") and
+              any(m in b.name for m in ("s3s::http::body", "s3s::dto::streaming_blob", "s3s::stream", "s3s::http::aws_chunked_stream"))]
+    chk.floor("R6", len(bodies), 4, "poll_next / poll_frame bodies on the body path")
+    n = 0
+    for b in bodies:
+        for bi, si, st in b.stmts():
+            rv = st["rv"]
+            if rv["k"] == "agg" and rv.get("adt") == "core::task::poll::Poll" and rv.get("variant") == "Ready" and rv["ops"] and flow.is_none_literal(b, rv["ops"][0]):
+                n += 1
+                f = guards.dominating_facts(b, bi)
+                hint = [x for x in f if x[0] == "call" and any(x[1].endswith(h) for h in END_HINTS)]
+                # comparisons fed by a hint
+                for x in f:
+                    if x[0] == "cmp" or (x[0] == "call" and (x[1].endswith("PartialEq::eq") or x[1].endswith("PartialEq::ne"))):
+                        blk = x[3]
+                        ops = []
+                        if x[0] == "cmp":
+                            for b2, s2, st2 in b.stmts():
+                                if b2 == blk and st2["rv"]["k"] == "bin":
+                                    ops += st2["rv"]["ops"]
+                        else:
+                            ops = b.blocks[blk]["term"]["args"]
+                        for o in ops:
+                            sl = flow.backward(b, o, at=blk)
+                            if any(any(callee_def(c).endswith(h) for h in END_HINTS) for _, c, _ in sl.calls):
+                                hint.append(x)
+                chk.verdict(not hint, "R6", "%s#%d" % (db.root_of(b).name.replace("s3s::", "")[:70], bi), b.loc(bi),
+                            "end of stream (Ready(None)) is decided by a length hint (%s) instead of by the source ending: the final signed chunk is never read" %
+                            sorted({short(x[1]) if x[0] == "call" else "comparison" for x in hint}))
+    chk.floor("R6.ends", n, 2, "Ready(None) returns inspected")
 
 
 def run(chk, db, tier):
@@ -363,6 +428,8 @@ def run(chk, db, tier):
     chk.guard("R3", rule_r3, db)
     chk.guard("R4", rule_r4, db, g)
     chk.guard("R5", rule_r5, db)
+    chk.rule("R6", "end-of-stream provenance: body adapters return Ready(None) only because their source ended, never from a size hint")
+    chk.guard("R6", rule_r6, db)
     chk.guard("V4", lambda c: sigcore.param_reaches_return(db, "s3s::sig_v4::methods::create_chunk_string_to_sign", c, "V4", "builder:create_chunk_string_to_sign"))
     chk.rule("V4", "every parameter of create_chunk_string_to_sign reaches the result")
 
